@@ -26,7 +26,7 @@ type outAttr struct {
 	Asset  int    `json:"asset"` // 0 = X, 1 = Y
 	Vote   int    `json:"vote"`  // 0 = none, 1 = k
 	Mature bool   `json:"mature"`
-	Pres   int    `json:"presence"`
+	Pres   int    `json:"presence"` // presence at the start of a sequence (presence events change it)
 	Amount uint64 `json:"amount"`
 }
 
@@ -44,7 +44,14 @@ const (
 	opParticular
 	opCancel
 	opExpire
+	// presence events (family P): what the wallet does to the keeper's view of an output
+	opConfirm           // block attached: output written to the wallet db, removed from the unconfirmed set
+	opAddUnconfirmed    // transaction entered the pool
+	opRemoveUnconfirmed // pool eviction without confirmation (or the removal half of a confirmation)
+	opUnconfirm         // block detached: output deleted from the wallet db, back in the unconfirmed set
 )
+
+var opKindName = []string{"reserve", "particular", "cancel", "expire", "confirm", "add-unconfirmed", "remove-unconfirmed", "unconfirm"}
 
 // expiry instants (seconds after the base instant) a reservation can be given, and the
 // instants expire() is called with. 10 and 20 hit the boundary expiry == now.
@@ -77,8 +84,10 @@ func (o op) String() string {
 			return "Cancel(0)"
 		}
 		return fmt.Sprintf("Cancel(holder of #%d)", o.Out)
-	default:
+	case opExpire:
 		return fmt.Sprintf("expire(now=%d)", o.T)
+	default:
+		return fmt.Sprintf("%s(#%d)", opKindName[o.Kind], o.Out)
 	}
 }
 
@@ -93,12 +102,47 @@ type mres struct {
 type mstate struct {
 	live  []mres
 	maxID uint64
+	db    []bool // output is in the wallet database
+	unc   []bool // output is in the unconfirmed set
+}
+
+// newModel is the model state at the start of a sequence.
+func newModel(set []outAttr) *mstate {
+	s := &mstate{db: make([]bool, len(set)), unc: make([]bool, len(set))}
+	for i, a := range set {
+		s.db[i] = a.Pres == presConfirmed || a.Pres == presBoth
+		s.unc[i] = a.Pres == presUnconfirmed || a.Pres == presBoth
+	}
+	return s
 }
 
 func (s *mstate) clone() *mstate {
-	n := &mstate{maxID: s.maxID, live: make([]mres, len(s.live))}
-	copy(n.live, s.live) // outs slices are never mutated
+	n := &mstate{maxID: s.maxID, live: make([]mres, len(s.live)), db: s.db, unc: s.unc} // presence slices are copied on write
+	copy(n.live, s.live)                                                                // outs slices are never mutated
 	return n
+}
+
+// setPresence applies a presence event. Live reservations are NOT touched: a reservation keeps its
+// outputs until it is cancelled or expires, whatever happens to the wallet db or the unconfirmed set.
+func (s *mstate) setPresence(i int, db, unc bool) {
+	s.db = append([]bool{}, s.db...)
+	s.unc = append([]bool{}, s.unc...)
+	s.db[i], s.unc[i] = db, unc
+}
+
+func (s *mstate) presence() string {
+	b := make([]byte, len(s.db))
+	for i := range s.db {
+		b[i] = "-UCB"[b2i(s.unc[i])+2*b2i(s.db[i])]
+	}
+	return string(b)
+}
+
+func b2i(b bool) int {
+	if b {
+		return 1
+	}
+	return 0
 }
 
 func (s *mstate) holder(out int) (uint64, bool) {
@@ -136,6 +180,7 @@ func (s *mstate) describe() string {
 	for i, r := range s.live {
 		fmt.Fprintf(&b, "[r%d outs=%v exp=%d]", i, r.outs, r.expiry)
 	}
+	b.WriteString(" presence=" + s.presence())
 	return b.String()
 }
 
@@ -153,16 +198,16 @@ func matches(a outAttr, o op) bool {
 	return a.Acct == o.Acct && a.Asset == o.Asset && a.Vote == o.Vote
 }
 
-// visible: the caller may be given this output (unconfirmed-only outputs need useUnconfirmed).
-func visible(a outAttr, useU bool) bool {
-	return a.Pres != presUnconfirmed || useU
+// visible: the caller may be given output i (in the wallet db, or unconfirmed with useUnconfirmed).
+func (s *mstate) visible(i int, useU bool) bool {
+	return s.db[i] || (s.unc[i] && useU)
 }
 
 // expectReserve is the three-way comparison of the statement: every matching visible output is
 // counted ONCE in exactly one of available / reserved / immature.
 func expectReserve(set []outAttr, s *mstate, o op) (cls string, avail, reserved, immature uint64) {
 	for i, a := range set {
-		if !matches(a, o) || !visible(a, o.UseU) {
+		if !matches(a, o) || !s.visible(i, o.UseU) {
 			continue
 		}
 		switch {
@@ -198,7 +243,7 @@ func expectParticular(set []outAttr, s *mstate, o op) string {
 		return clsReserved
 	}
 	a := set[o.Out]
-	if !visible(a, o.UseU) {
+	if !s.visible(o.Out, o.UseU) {
 		return clsNotFound
 	}
 	if !a.Mature {
@@ -213,11 +258,11 @@ func expectParticular(set []outAttr, s *mstate, o op) string {
 func expectReserveCountingBothTwice(set []outAttr, s *mstate, o op) string {
 	var avail, reserved, immature uint64
 	for i, a := range set {
-		if !matches(a, o) || !visible(a, o.UseU) {
+		if !matches(a, o) || !s.visible(i, o.UseU) {
 			continue
 		}
 		w := a.Amount
-		if a.Pres == presBoth && o.UseU {
+		if s.db[i] && s.unc[i] && o.UseU {
 			w *= 2
 		}
 		switch {
